@@ -259,7 +259,8 @@ def check_c06(idx: Index, tier: str, res: Result) -> None:
         if isinstance(n, ast.Assign) and len(n.targets) == 1 and isinstance(n.targets[0], ast.Attribute) and isinstance(n.targets[0].value, ast.Name) \
                 and n.targets[0].value.id == "self" and n.targets[0].attr in ("points", "memo", "equations", "constants", "stocks", "flows", "converters"):
             ngen += 1
-            v = n.value
+            from ..util import deref as _deref_g
+            v = _deref_g(ginit, n.value)          # memo = {...}; self.memo = memo: a local built here is not a shared object
             shared = (isinstance(v, ast.Name) and v.id not in gparams and v.id != "JINJA") or (isinstance(v, ast.Attribute) and not isinstance(v.value, ast.Call))
             res.check("FRESH", "generated model: self.%s is built per instance" % n.targets[0].attr, not shared, "%s (template)" % JINJA, "jinja:simulation_model.__init__",
                       norm_stmt(n)[:90], "every instance of the generated model class takes its '%s' table from %s: one object for all scenarios "
